@@ -73,7 +73,8 @@ def _case(draw):
     if draw(st.integers(0, 5)) == 0:
         fk = ck = "f32dtype"  # what a single-precision run returns
     case = {
-        "kind": "synthetic", "nx": nx, "ny": ny, "nlev": nlev, "names": names, "timestamps": ts, "flx_kind": fk, "conc_kind": ck,
+        "kind": "synthetic", "filename": draw(st.sampled_from(["c18_roundtrip.nc", "c18_roundtrip.nc", "fp_2024.06", "site_z2.5m", "export.v1.nc"])),
+        "nx": nx, "ny": ny, "nlev": nlev, "names": names, "timestamps": ts, "flx_kind": fk, "conc_kind": ck,
         "dx": draw(gen.logfl(0.1, 100.0)), "dy": draw(gen.logfl(0.1, 100.0)),
         # heights in the order the levels were requested: ascending or not
         "zlev": draw(st.lists(gen.fl(0.01, 100.0), min_size=max(nlev, 1), max_size=max(nlev, 1), unique=True)),
@@ -187,12 +188,28 @@ def check_case(case):
 
     snap = {n_: [(r["flx"].copy(), r["conc"].copy(), r["timestamp"], dict(r["params"])) for r in lst] for n_, lst in results.items()}
     cfg_before = copy.deepcopy(cfg)
+    # the file is written where, and under the name, the caller says: another export saved afterwards under a sibling
+    # name (same stem up to the last dot) must leave this one alone
+    fname = case.get("filename", "c18_roundtrip.nc")
+    sibling = {"c18_roundtrip.nc": "c18_roundtrip_b.nc", "fp_2024.06": "fp_2024.07", "site_z2.5m": "site_z2.0m",
+               "export.v1.nc": "export.v2.nc"}[fname]
+    for f_ in (fname, sibling):
+        if os.path.exists(f_):
+            os.remove(f_)
+    path = fname
+    out.label("filename=" + fname)
     try:
         save_footprints_to_netcdf(results, cfg, path)
+        other = {n_: [dict(r, flx=np.asarray(r["flx"]) * 0 - 1.0, conc=np.asarray(r["conc"]) * 0 + 2.0) for r in lst]
+                 for n_, lst in results.items()}
+        save_footprints_to_netcdf(other, cfg, sibling)
         ds = load_footprints_from_netcdf(path)
     except Exception as e:
         out.bad(f"save/load raised {type(e).__name__}: {e}")
         return out
+    if not os.path.exists(fname):
+        out.bad(f"save_footprints_to_netcdf(..., {fname!r}) did not create a file of that name (directory now holds "
+                f"{sorted(f for f in os.listdir('.') if f.startswith(fname.split('.')[0]))})")
     if cfg != cfg_before or list(results.keys()) != list(snap.keys()) or any(
             not (np.array_equal(r["flx"], b[0], equal_nan=True) and np.array_equal(r["conc"], b[1], equal_nan=True)
                  and r["timestamp"] == b[2] and r["params"] == b[3])
